@@ -65,3 +65,26 @@ def _safe(fn):
         return ("ok", fn())
     except Exception as e:  # noqa: BLE001
         return ("exc", f"{type(e).__name__}: {e}")
+
+
+def trace_lines(callA):
+    """-> (list of (relative file, line) line events of callA inside the a5 package, result)."""
+    root = _a5_root()
+    seq = []
+
+    def local(frame, event, arg):
+        if event == "line":
+            seq.append((frame.f_code.co_filename[len(root):], frame.f_lineno))
+        return local
+
+    def glob(frame, event, arg):
+        if event == "call" and frame.f_code.co_filename.startswith(root):
+            return local
+        return None
+
+    sys.settrace(glob)
+    try:
+        res = _safe(callA)
+    finally:
+        sys.settrace(None)
+    return seq, res
